@@ -180,7 +180,141 @@ Section P.
   (* C18_lru *)
   Lemma lru_bound h : (length (lru (after h init)) <= maxsize)%nat /\ NoDup (map fst (lru (after h init))).
   Proof. destruct (inv_after h init inv_init) as (_ & A & B). split; assumption. Qed.
+  (* ---- what a call leaves behind (Cache.residue; measured on the real process by the residue oracle) *)
+  Notation residue := (residue value load input analysis explicit).
+  Notation changed := (changed value).
+  Definition same (c : comp) (s s' : state) : Prop :=
+    match c with
+    | CLru => map fst (lru s) = map fst (lru s')
+    | CMode => mode s = mode s'
+    | CLogCfg => logcfg s = logcfg s'
+    | CLogDis => logdis s = logdis s'
+    end.
+  Lemma strs_eqb_iff a : forall b, strs_eqb a b = true <-> a = b.
+  Proof.
+    induction a as [|x a IH]; intros [|y b]; cbn [strs_eqb]; split; try discriminate; try reflexivity.
+    - rewrite Bool.andb_true_iff. intros [A B]. apply IH in B. destruct (str_eqb_spec x y); [subst; reflexivity | discriminate].
+    - intro E. injection E as -> ->. rewrite str_eqb_refl. apply IH. reflexivity.
+  Qed.
+  Lemma hmode_eqb_iff a b : hmode_eqb a b = true <-> a = b.
+  Proof. destruct a, b; cbn; split; intro H; try discriminate; reflexivity. Qed.
+  Lemma logcfg_eqb_iff a b : logcfg_eqb a b = true <-> a = b.
+  Proof.
+    destruct a as [[p f]|], b as [[p' f']|]; cbn [logcfg_eqb]; split; intro H; try discriminate; try reflexivity.
+    - apply Bool.andb_true_iff in H. destruct H as [A B]. apply Bool.eqb_prop in B. destruct (str_eqb_spec p p'); [subst; reflexivity | discriminate].
+    - injection H as -> ->. rewrite str_eqb_refl, Bool.eqb_reflx. reflexivity.
+  Qed.
+  (* the comparison is exact: a component is listed iff it differs *)
+  Lemma changed_spec c s s' : In c (changed s s') <-> ~ same c s s'.
+  Proof.
+    unfold Cache.changed.
+    pose proof (strs_eqb_iff (map fst (lru s)) (map fst (lru s'))) as E1. pose proof (hmode_eqb_iff (mode s) (mode s')) as E2.
+    pose proof (logcfg_eqb_iff (logcfg s) (logcfg s')) as E3.
+    assert (E4 : Bool.eqb (logdis s) (logdis s') = true <-> logdis s = logdis s') by (split; [apply Bool.eqb_prop | intros ->; apply Bool.eqb_reflx]).
+    destruct (strs_eqb (map fst (lru s)) (map fst (lru s'))), (hmode_eqb (mode s) (mode s')),
+      (logcfg_eqb (logcfg s) (logcfg s')), (Bool.eqb (logdis s) (logdis s'));
+      destruct c; cbn [app In same]; intuition (try discriminate; try congruence).
+  Qed.
+  Lemma changed_nil s s' : changed s s' = [] <-> (forall c, same c s s').
+  Proof.
+    split.
+    - intros E c. destruct (changed_spec c s s') as [_ B].
+      assert (D : {same c s s'} + {~ same c s s'}).
+      { destruct c; cbn [same].
+        - destruct (strs_eqb (map fst (lru s)) (map fst (lru s'))) eqn:Q; [left; apply strs_eqb_iff; exact Q | right; intro X; apply strs_eqb_iff in X; congruence].
+        - destruct (hmode_eqb (mode s) (mode s')) eqn:Q; [left; apply hmode_eqb_iff; exact Q | right; intro X; apply hmode_eqb_iff in X; congruence].
+        - destruct (logcfg_eqb (logcfg s) (logcfg s')) eqn:Q; [left; apply logcfg_eqb_iff; exact Q | right; intro X; apply logcfg_eqb_iff in X; congruence].
+        - destruct (logdis s), (logdis s'); [left | right | right | left]; try reflexivity; discriminate. }
+      destruct D as [Y|N]; [exact Y|]. apply B in N. rewrite E in N. destruct N.
+    - intro H. destruct (changed s s') as [|c l] eqn:E; [reflexivity|].
+      assert (In c (changed s s')) as I by (rewrite E; left; reflexivity). apply changed_spec in I. destruct (I (H c)).
+  Qed.
+
+  Lemma analyze_logcfg x s : logcfg (fst (analyze value load input analysis x s)) = logcfg s.
+  Proof. unfold Cache.analyze. destruct (runp (lru s) (analysis x)); reflexivity. Qed.
+  Lemma analyze_logdis x s : logdis (fst (analyze value load input analysis x s)) = logdis s.
+  Proof. unfold Cache.analyze. destruct (runp (lru s) (analysis x)); reflexivity. Qed.
+  Lemma log_decision_logcfg fl s : logcfg (log_decision value fl s) = logcfg s.
+  Proof. unfold Cache.log_decision. destruct (logcfg s) eqn:E; [destruct (logdis s); [|destruct fl]|]; cbn; congruence. Qed.
+  Lemma log_decision_false s : log_decision value false s = s.
+  Proof. unfold Cache.log_decision. destruct (logcfg s); [destruct (logdis s)|]; reflexivity. Qed.
+
+  (* an analysis leaves nothing behind but the handler cache *)
+  Lemma analyze_residue s x c : In c (residue s (QAnalyze x)) -> c = CLru.
+  Proof.
+    unfold Cache.residue. intro H. apply changed_spec in H. cbn [Cache.step] in H.
+    pose proof (analyze_mode x s) as M. pose proof (analyze_logcfg x s) as L. pose proof (analyze_logdis x s) as D.
+    destruct (analyze value load input analysis x s) as [s1 a]; cbn [fst] in *.
+    destruct c; cbn [same] in H; [reflexivity | | |]; exfalso; apply H; congruence.
+  Qed.
+  (* so does a direct check_command call on a working (or absent) sink *)
+  Lemma check_residue s x c : In c (residue s (QCheck x)) -> c = CLru.
+  Proof.
+    unfold Cache.residue. intro H. apply changed_spec in H. cbn [Cache.step] in H.
+    pose proof (analyze_mode x s) as M. pose proof (analyze_logcfg x s) as L. pose proof (analyze_logdis x s) as D.
+    destruct (analyze value load input analysis x s) as [s1 a]; cbn [fst] in *. rewrite log_decision_false in H.
+    destruct c; cbn [same] in H; [reflexivity | | |]; exfalso; apply H; congruence.
+  Qed.
+  (* the other calls never touch the handler cache; each touches only its own variables *)
+  Lemma setmode_residue s m c : In c (residue s (QSetMode m)) -> c = CMode.
+  Proof.
+    unfold Cache.residue. intro H. apply changed_spec in H. cbn [Cache.step fst] in H.
+    destruct c; cbn [same] in H; [| reflexivity | |]; exfalso; apply H; reflexivity.
+  Qed.
+  Lemma configure_residue s log fl c : In c (residue s (QConfigure log fl)) -> c = CLogCfg \/ c = CLogDis.
+  Proof.
+    unfold Cache.residue. intro H. apply changed_spec in H. cbn [Cache.step fst] in H.
+    destruct c; cbn [same] in H; [| | left; reflexivity | right; reflexivity]; exfalso; apply H;
+      [rewrite configure_lru | rewrite configure_mode]; reflexivity.
+  Qed.
+  Lemma log_decision_residue s fl c : In c (residue s (QLogDecision fl)) -> c = CLogDis.
+  Proof.
+    unfold Cache.residue. intro H. apply changed_spec in H. cbn [Cache.step fst] in H.
+    destruct c; cbn [same] in H; [| | | reflexivity]; exfalso; apply H;
+      [rewrite log_decision_lru | rewrite log_decision_mode | rewrite log_decision_logcfg]; reflexivity.
+  Qed.
+  (* main(): with a mode flag the mode is never rebound *)
+  Lemma main_residue_explicit s det x log cf df m : explicit = Some m -> ~ In CMode (residue s (QMain det x log cf df)).
+  Proof.
+    intros E H. unfold Cache.residue in H. apply changed_spec in H. apply H. cbn [same Cache.step]. rewrite E.
+    pose proof (analyze_mode x (configure value log cf s)) as M.
+    destruct (analyze value load input analysis x (configure value log cf s)) as [s3 a]; cbn [fst] in *.
+    rewrite log_decision_mode, M, configure_mode. reflexivity.
+  Qed.
+  (* ---- C15 in a long-lived process: what a main() run appends to the decision log is a function of its own
+     configuration and of the faults it meets - never of what the process decided, configured or failed before *)
+  Notation effect := (effect value load input analysis explicit).
+  Lemma main_effect s det x log cf df :
+    effect s (QMain det x log cf df) = main_effect_spec log cf df.
+  Proof.
+    cbn [Cache.effect]. set (s1 := match explicit with Some _ => s | None => set_mode value det s end).
+    unfold Cache.writes. rewrite analyze_logcfg, analyze_logdis. unfold Cache.configure, main_effect_spec.
+    destruct log as [l|]; [destruct cf; cbn; [reflexivity | destruct df; reflexivity] | reflexivity].
+  Qed.
+  Lemma main_effect_local s s' det x log cf df :
+    effect s (QMain det x log cf df) = effect s' (QMain det x log cf df).
+  Proof. rewrite !main_effect. reflexivity. Qed.
+  (* and the flag on the line is the flag of THIS run's configuration *)
+  Lemma main_effect_full s det x log cf df p full :
+    effect s (QMain det x log cf df) = Some (p, full) -> log = Some (p, full).
+  Proof.
+    rewrite main_effect. unfold main_effect_spec. destruct log as [l|]; [|discriminate].
+    destruct cf; [discriminate|]. destruct df; [discriminate|]. intro H. injection H as ->. reflexivity.
+  Qed.
 End P.
+
+(* a direct log_decision call (not something main() does without configuring first) is silenced by an earlier
+   failure: documented ("set on first failure, prevents repeated attempts"), and the reason main() must - and
+   does - call configure_logging every time *)
+Lemma direct_effect_refuted :
+  exists (s s' : state unit),
+    effect unit (fun _ => tt) unit (fun _ => Done (Allow, [])) None s (QLogDecision false)
+    <> effect unit (fun _ => tt) unit (fun _ => Done (Allow, [])) None s' (QLogDecision false).
+Proof.
+  exists {| lru := []; mode := HClaude; logcfg := Some ([120%N], true); logdis := false |},
+         {| lru := []; mode := HClaude; logcfg := Some ([120%N], true); logdis := true |}.
+  vm_compute. discriminate.
+Qed.
 
 (* a direct check_command call (not something the hook does) reads the MODE left by the last main() *)
 Lemma envelope_refuted :
@@ -189,3 +323,28 @@ Lemma envelope_refuted :
     snd (st (after unit (fun _ => tt) unit (fun _ => Done (Allow, [])) None h (init unit None)) q)
     <> snd (st (init unit None) q).
 Proof. exists [QMain HGemini tt None false false], (QCheck tt). vm_compute. discriminate. Qed.
+
+(* the static inventory of process state in the working tree is what the model accounts for *)
+Lemma state_tie : state_inventory_ok = true.
+Proof. vm_compute. reflexivity. Qed.
+
+(* ---- soundness of the residue oracle, for any process whatever: if what a snapshot sees (`see`) determines
+   both the answers and what the next snapshot sees (the snapshot misses no state that matters), and no call
+   asked in the fresh state leaves a visible residue, then no history can change any answer *)
+Section Residue.
+  Variables state query answer view : Type.
+  Variable step : state -> query -> state * answer.
+  Variable see : state -> view.
+  Variable init : state.
+  Definition run (h : list query) (s : state) : state := fold_left (fun s q => fst (step s q)) h s.
+  Hypothesis complete : forall s s' q, see s = see s' ->
+    snd (step s q) = snd (step s' q) /\ see (fst (step s q)) = see (fst (step s' q)).
+  Hypothesis residue_free : forall q, see (fst (step init q)) = see init.
+  Lemma run_see h : forall s, see s = see init -> see (run h s) = see init.
+  Proof.
+    induction h as [|q h IH]; intros s E; [exact E|]. cbn [run fold_left]. apply IH.
+    destruct (complete s init q E) as [_ ->]. apply residue_free.
+  Qed.
+  Lemma residue_sound h q : snd (step (run h init) q) = snd (step init q).
+  Proof. apply complete. apply run_see. reflexivity. Qed.
+End Residue.
